@@ -5,8 +5,11 @@ From SygmaV Require Export Lib.RunLib Model.C05 Gen.C05_Wiring.
 Local Open Scope Z_scope.
 
 Inductive case :=
-(* a relayer of chain kind k (wired as app/app.go wires that kind: Gen/C05_Wiring.v) with the given
-   configuration and initial block-store contents, driven through the environment script evs;
+(* a relayer of chain kind k (wired as app/app.go wires that kind: Gen/C05_Wiring.v wiring_of k, and
+   GetStartBlock given the arguments app/app.go gives it: start_of k - the runner computes the two
+   flags and the start block by the same extracted expressions and hands them to the real
+   GetStartBlock) with the given configuration and initial block-store contents, driven through the
+   environment script evs;
    obs = the real history: lifetimes' start blocks, handler calls with results, StoreBlock calls *)
 | Scan (k : kind) (ival conf : Z) (nh : nat) (cstart : Z) (latest fresh : bool)
        (stored0 : option Z) (evs : list ev) (obs : list out)
@@ -15,7 +18,14 @@ Inductive case :=
 (* one HandleEvents(s, e) call of a real event handler over a node that checks and records the
    arguments of every read: fired = a read of the call could not be served; asked = the bounds of its
    range reads as given; did it return an error? *)
-| Reads (s e : Z) (fired : bool) (asked : list (Z * Z)) (impl_err : bool).
+| Reads (s e : Z) (fired : bool) (asked : list (Z * Z)) (impl_err : bool)
+(* a Bitcoin / EVM domain of the REAL app.Run (one relayer process, one domain per case: configuration
+   file -> GetStartBlock -> head / alignment -> chain object -> listener) over a local node whose head
+   is [head] at first and moves on by one with every head read; block store prepared with [stored0];
+   obs = the first two ranges of blocks the event handlers asked the node for (fewer: app.Run itself
+   ended - panic or return - before; None: the child process gave no observation: no verdict) *)
+| AppRun (k : kind) (ival conf cstart : Z) (latest fresh : bool) (stored0 : option Z) (head : Z)
+         (obs : option (list (Z * Z))).
 
 Definition optZ_eqb (a b : option Z) : bool :=
   match a, b with Some x, Some y => Z.eqb x y | None, None => true | _, _ => false end.
@@ -38,14 +48,44 @@ Fixpoint outs_eqb (a b : list out) : bool :=
 Definition mk_cfg k ival conf nh cstart latest fresh : cfg :=
   {| kd := k; ival := ival; conf := conf; nh := nh; cstart := cstart; latest := latest; fresh := fresh |}.
 
+(* the history of the relayer as app.go wires it *)
+Definition wired_run (k : kind) (c : cfg) (st : option Z) (evs : list ev) : list out :=
+  run (wiring_of k) (sc_cfg (start_of k) c) st evs.
+
+(* the environment of an AppRun case: every head read finds the head one higher, handlers and block
+   store never fail *)
+Fixpoint app_script (h : Z) (n : nat) : list ev :=
+  match n with
+  | O => []
+  | S n' => Head h :: Handler true :: Store true :: app_script (h + 1) n'
+  end.
+
+Definition handled (tr : list out) : list (Z * Z) :=
+  flat_map (fun o => match o with OHandle O s e true => [(s, e)] | _ => [] end) tr.
+
+Definition app_model (k : kind) (c : cfg) (st : option Z) (head : Z) : list (Z * Z) :=
+  handled (wired_run k c st (app_script head 60)).
+
+Fixpoint ranges_eqb (a b : list (Z * Z)) : bool :=
+  match a, b with
+  | [], [] => true
+  | x :: a', y :: b' => Z.eqb (fst x) (fst y) && Z.eqb (snd x) (snd y) && ranges_eqb a' b'
+  | _, _ => false
+  end.
+
 Definition agree (c : case) : bool :=
   match c with
   | Scan k i cf n cs l f st evs obs =>
-      outs_eqb (run (wiring_of k) (mk_cfg k i cf n cs l f) st evs) obs
+      outs_eqb (wired_run k (mk_cfg k i cf n cs l f) st evs) obs
   | Propagate f e => Bool.eqb (handler_returns_err f) e
   | Reads s e fired asked err =>
       Bool.eqb (handler_returns_err (negb fired)) err &&
       Bool.eqb (err || covers s e (handler_asks s e)) (err || covers s e asked)
+  | AppRun k i cf cs l f st head obs =>
+      match obs with
+      | Some rs => ranges_eqb (firstn 2 (app_model k (mk_cfg k i cf 1 cs l f) st head)) rs
+      | None => true
+      end
   end.
 
 Definition judge (c : case) : bool :=
@@ -53,18 +93,28 @@ Definition judge (c : case) : bool :=
   | Scan k i cf n cs l f st evs obs => trace_ok (mk_cfg k i cf n cs l f) st obs
   | Propagate f e => propagate_ok f e
   | Reads s e fired asked err => reads_ok s e fired asked err
+  (* the blocks the domain's handlers read first, as a trace of a one-handler relayer: the first one is
+     not beyond the starting point, the next follows without a gap *)
+  | AppRun k i cf cs l f st _ obs =>
+      match obs with
+      | Some rs => trace_ok (mk_cfg k i cf 1 cs l f) st (map (fun r => OHandle O (fst r) (snd r) true) rs)
+      | None => true
+      end
   end.
 
 (* model branch: kind x (restarted at least once?) x (anything persisted?) ; propagate x fetch_ok *)
 Definition tag (c : case) : N :=
   match c with
   | Scan k i cf n cs l f st evs _ =>
-      let tr := run (wiring_of k) (mk_cfg k i cf n cs l f) st evs in
+      let tr := wired_run k (mk_cfg k i cf n cs l f) st evs in
       ((match k with Evm => 0 | Sub => 4 | Btc => 8 end)
        + (if Nat.leb 2 (length (filter (fun o => match o with OStart _ => true | _ => false end) tr)) then 2 else 0)
        + (if existsb (fun o => match o with OStore _ true => true | _ => false end) tr then 1 else 0))%N
   | Propagate f _ => if f then 13%N else 12%N
   | Reads _ _ fired _ _ => if fired then 15%N else 14%N
+  | AppRun k _ _ _ l f st _ _ =>
+      (16 + (match k with Evm => 0 | Sub => 8 | Btc => 16 end) + (if l then 4 else 0) + (if f then 2 else 0)
+       + (match st with Some _ => 1 | None => 0 end))%N
   end.
 
 Definition check_all := check_cases agree judge tag.
